@@ -212,7 +212,8 @@ def explore(mod, tier, seed, log=print):
     if hasattr(mod, "preimport"):
         mod.preimport()
     pool = Pool(mod.__name__)
-    raw = pool.map(tasks, progress=lambda d, n: log("[%s] %d/%d tasks (%.0f s)" % (mod.ID, d, n, time.time() - t0)))
+    timeout = TASK_TIMEOUT if tier == "quick" else max(TASK_TIMEOUT, 7200.0)
+    raw = pool.map(tasks, progress=lambda d, n: log("[%s] %d/%d tasks (%.0f s)" % (mod.ID, d, n, time.time() - t0)), timeout=timeout)
     # determinism self-check: seed-chosen 2 % (at least 3) of the tasks are re-executed in other workers
     import random
     rng = random.Random(seed)
